@@ -117,6 +117,9 @@ typedef struct { int proc, callno, err; } simfault;
 extern simfault sim_faults[8]; extern int sim_nfaults;
 extern int sim_fault_fired;
 extern unsigned long sim_crash_before;     /* world crash before global call number N (0 = never) */
+extern int sim_gate_close;                 /* opt-in (C12): close() of a regular file is a gated, faultable call; default 0 */
+/* opt-in fault kind err == -3 (C12): the clock jumps 100000 s ahead before the call (a pending alarm fires) */
+/* opt-in fault kind err == -4 (C02): this process alone is killed before the call (SIGKILL); the others go on */
 
 /* program globals: the data sections of a program instance built by nqlib.Scratch.prog_object().
  * SIM_INSTANCE(inst) declares the section bounds; sim_globals_add registers them; snapshot once at
